@@ -168,14 +168,23 @@ let () =
           let lq = List.map (fun (l, _, _) -> qof emin l) ls in
           let lmax = List.fold_left (fun acc l -> if qle_bool acc l then l else acc) (qz Z0) lq in
           let ub = qmult lmax lmax in
-          (match mingap2 ta tb ub with
+          (* solids intersect when a vertex of one has non-zero winding w.r.t. the other (strictly inside, or on its
+             surface = touching): the expected answer is then 0 and the brute-force distance is not needed *)
+          let pa_ = Array.to_list (mesh_pts emin a) and pb_ = Array.to_list (mesh_pts emin b) in
+          let inside0 = List.exists (fun p -> zcmp (winding_fast tb p) Z0 <> 0) pa_ || List.exists (fun p -> zcmp (winding_fast ta p) Z0 <> 0) pb_ in
+          (* the smallest vertex-vertex distance is an attained upper bound: start the pruned search from it *)
+          let vv = List.fold_left (fun acc p -> List.fold_left (fun acc q ->
+              let ((x, y), z) = p and ((u, v), w) = q in
+              let dx = zsub x u and dy = zsub y v and dz = zsub z w in
+              let d = zadd (zmul dx dx) (zadd (zmul dy dy) (zmul dz dz)) in
+              match acc with None -> Some d | Some m -> if zcmp d m < 0 then Some d else acc) acc pb_) None pa_ in
+          let ub = match vv with Some d when qle_bool (qz d) ub -> qz d | _ -> ub in
+          (match (if inside0 then Some (qz (z_of_int 1)) else mingap2 ta tb ub) with
            | None -> Printf.printf "V %s gap CERTFAIL\n" id
            | Some r ->
              let r = qred r in
-             let zero = qle_bool r (qz Z0) in
-             let inside = (not zero) &&
-                          (List.exists (fun p -> zcmp (winding_fast tb p) Z0 <> 0) (Array.to_list (mesh_pts emin a)) ||
-                           List.exists (fun p -> zcmp (winding_fast ta p) Z0 <> 0) (Array.to_list (mesh_pts emin b))) in
+             let zero = (not inside0) && qle_bool r (qz Z0) in
+             let inside = inside0 in
              List.iteri (fun i (l, g1, g2) ->
                  let lz = qof emin l in
                  let l2 = qmult lz lz in
